@@ -93,6 +93,18 @@ impl<'a> SendLastStateProofProcess<'a> {
             print_headers(&headers);
         }
 
+        // The total difficulties of the headers are used from here on.
+        if let Some(header) = headers
+            .iter()
+            .find(|header| header.total_difficulty_overflows())
+        {
+            let errmsg = format!(
+                "total difficulty of block#{} overflows",
+                header.header().number()
+            );
+            return StatusCode::InvalidChainRoot.with_context(errmsg);
+        }
+
         // Check if the response is match the request.
         let (reorg_count, sampled_count, last_n_count) =
             return_if_failed!(check_if_response_is_matched(
